@@ -60,8 +60,26 @@ def corpus_paths(i):
     return _PATHS[i]
 
 
+FIELD_BITS = {
+    "parse_code": 8, "next_parse_offset": 32, "previous_parse_offset": 32, "picture_number": 32,
+    "fragment_data_length": 16, "fragment_slice_count": 16, "fragment_x_offset": 16, "fragment_y_offset": 16,
+    "qindex": 7, "slice_y_length": 8, "slice_c1_length": 8, "slice_c2_length": 8,
+}
+
+
 @st.composite
 def new_value(draw, old, key=None):
+    """A replacement for a leaf value, kept within the width of fixed-width fields so that the
+    mutated description usually remains serialisable."""
+    v = draw(_new_value(old, key))
+    bits = FIELD_BITS.get(key)
+    if bits is not None and isinstance(v, int) and not isinstance(v, bool):
+        v = max(0, v) & ((1 << bits) - 1)
+    return v
+
+
+@st.composite
+def _new_value(draw, old, key=None):
     if isinstance(old, bool):
         return not old
     if isinstance(old, int):
@@ -221,7 +239,8 @@ def byte_mutate(draw, data):
 def mutated_streams(draw, allow_valid=True):
     """(bytes, meta) – meta: {'base': name, 'mode': ..., 'ops': [...]}"""
     corp = C.corpus()
-    mode = draw(st.sampled_from(["bytes", "bytes", "field", "field", "field", "unit", "field+bytes", "random", "prefix+random"]
+    mode = draw(st.sampled_from(["bytes", "bytes", "field", "field", "bitfield", "bitfield", "bitfield", "unit", "field+bytes",
+                                 "random", "prefix+random"]
                                 + (["valid"] if allow_valid else [])))
     if mode == "random":
         return draw(st.binary(min_size=0, max_size=80)), {"base": None, "mode": mode, "ops": []}
@@ -236,6 +255,10 @@ def mutated_streams(draw, allow_valid=True):
     meta = {"base": entry["name"], "mode": mode, "ops": []}
     if mode == "valid":
         return entry["data"], meta
+    if mode == "bitfield":
+        data, ops = draw(bitfield_mutate(i))
+        meta["ops"] = ops
+        return data, meta
     data = entry["data"]
     if mode in ("field", "field+bytes", "unit"):
         desc = C.descriptions()[i]
@@ -248,12 +271,162 @@ def mutated_streams(draw, allow_valid=True):
         else:
             d, changed = draw(field_mutation(desc, corpus_paths(i)))
             meta["ops"] += [repr(c[0][-1]) for c in changed]
+        fix_offsets = draw(st.booleans())
         try:
-            data = C.serialise_plain(d)
-        except Exception as e:  # mutated description not serialisable: discard (counted)
+            from vpbt.gen import streams as S
+
+            with S.deser_guard():  # a mutant declaring huge sizes would spin in the serialiser's slice loops
+                if fix_offsets:
+                    # keep the parse offsets consistent with the mutated content so that the validator
+                    # gets past the parse-info checks and reaches the mutated field
+                    from vc2_conformance.bitstream.vc2_autofill import AUTO
+
+                    touched = set(meta["ops"])
+                    for seq in d["sequences"]:
+                        for du in seq["data_units"]:
+                            pi = du.get("parse_info")
+                            if pi is not None:
+                                if "'next_parse_offset'" not in touched:
+                                    pi["next_parse_offset"] = AUTO
+                                if "'previous_parse_offset'" not in touched:
+                                    pi["previous_parse_offset"] = AUTO
+                    meta["ops"].append("fix_offsets")
+                    data = S.serialise_stream(d)
+                else:
+                    data = C.serialise_plain(d, defaults=True)
+        except Exception as e:  # mutated description not serialisable / out of scope: discard (counted)
+            # not serialisable (e.g. padding lengths no longer match the changed geometry): count it and
+            # fall back to a byte-level mutation of the base stream so the example is not wasted
             meta["discarded"] = type(e).__name__
-            return None, meta
+            meta["mode"] = "bytes(fallback)"
+            data, kinds = draw(byte_mutate(entry["data"]))
+            meta["ops"] = kinds
+            return data, meta
     if mode in ("bytes", "field+bytes"):
         data, kinds = draw(byte_mutate(data))
         meta["ops"] += kinds
     return data, meta
+
+
+# --------------------------------------------------------------------------
+# field-aware *bit-level* mutation: never discards
+
+
+def _bitpos(tell):
+    return tell[0] * 8 + (7 - tell[1])
+
+
+_FIELDS = {}
+
+
+def field_positions(i):
+    """[(name, start_bit, end_bit, value, kind)] for corpus stream i, kind in {'fixed','uint','sint','bool'}.
+
+    Positions are recorded with the repository's MonitoredDeserialiser; a field is kept only when the
+    bits between the previous field's end and its own end are exactly its own encoding (so alignment
+    and bounded-block padding are never mistaken for part of a field)."""
+    if i in _FIELDS:
+        return _FIELDS[i]
+    from io import BytesIO
+
+    from vc2_conformance import bitstream as B
+    from vc2_conformance.pseudocode.state import State
+    from vpbt.oracles.sizes import sint_bits, uint_bits
+
+    data = C.corpus()[i]["data"]
+    events = []
+    last = [0]
+
+    def monitor(des, target, value):
+        end = _bitpos(des.io.tell())
+        events.append((target, last[0], end, value))
+        last[0] = end
+
+    with B.MonitoredDeserialiser(monitor, B.BitstreamReader(BytesIO(data))) as des:
+        B.parse_stream(des, State())
+    out = []
+    for name, start, end, value in events:
+        n = end - start
+        if isinstance(value, bool):
+            if n == 1:
+                out.append((name, start, end, value, "bool"))
+        elif isinstance(value, int):
+            v = int(value)
+            if name in FIELD_BITS or name == "parse_info_prefix":
+                if n in (7, 8, 16, 32) or (name == "slice_y_length" and 0 < n < 16):
+                    out.append((name, start, end, v, "fixed"))
+            elif v >= 0 and n == uint_bits(v) and not name.endswith("_transform"):
+                out.append((name, start, end, v, "uint"))
+            elif n == sint_bits(v):
+                out.append((name, start, end, v, "sint"))
+    _FIELDS[i] = out
+    return out
+
+
+def _uint_code(v):
+    from bitarray import bitarray as ba
+
+    out = ba()
+    v += 1
+    for b in bin(v)[3:]:
+        out.append(0)
+        out.append(b == "1")
+    out.append(1)
+    return out
+
+
+def _sint_code(v):
+    out = _uint_code(abs(v))
+    if v:
+        out.append(v < 0)
+    return out
+
+
+@st.composite
+def bitfield_mutate(draw, i):
+    """Replace the encoding of 1-3 fields of corpus stream i in the byte string itself."""
+    from bitarray import bitarray as ba
+
+    data = C.corpus()[i]["data"]
+    fields = field_positions(i)
+    bits = ba()
+    bits.frombytes(data)
+    hot = [k for k, f in enumerate(fields) if f[0] in HOT_FIELDS]
+    chosen = []
+    for _ in range(draw(st.integers(1, 3))):
+        pool = hot if (hot and draw(st.integers(0, 2)) != 0) else list(range(len(fields)))
+        chosen.append(pool[draw(st.integers(0, len(pool) - 1))])
+    ops = []
+    # apply from the last field backwards so earlier positions stay valid
+    for k in sorted(set(chosen), reverse=True):
+        name, start, end, value, kind = fields[k]
+        if kind == "bool":
+            code = ba([not value])
+            new = not value
+        elif kind == "fixed":
+            n = end - start
+            new = draw(new_value(value, name)) & ((1 << n) - 1)
+            code = ba(format(new, "0%db" % n))
+        elif kind == "uint":
+            new = max(0, draw(_new_value(value, name)))
+            code = _uint_code(new)
+        else:
+            new = draw(st.sampled_from([0, 1, -1, value + 1, -value, value * 2 + 1, (1 << draw(st.integers(1, 40))) - 1,
+                                        -(1 << draw(st.integers(1, 40)))]))
+            code = _sint_code(new)
+        bits = bits[:start] + code + bits[end:]
+        ops.append("%s:%r->%r" % (name, value, new))
+    pad = (-len(bits)) % 8
+    if pad:
+        bits += ba("0" * pad)
+    return bits.tobytes(), ops
+
+
+HOT_FIELDS = set([
+    "parse_code", "next_parse_offset", "previous_parse_offset", "picture_number", "fragment_slice_count",
+    "fragment_x_offset", "fragment_y_offset", "fragment_data_length", "slice_y_length", "slice_c1_length",
+    "slice_c2_length", "qindex", "major_version", "minor_version", "profile", "level", "base_video_format",
+    "slices_x", "slices_y", "slice_bytes_numerator", "slice_bytes_denominator", "slice_prefix_bytes",
+    "slice_size_scaler", "dwt_depth", "dwt_depth_ho", "wavelet_index", "wavelet_index_ho", "picture_coding_mode",
+    "custom_quant_matrix", "asym_transform_flag", "asym_transform_index_flag", "frame_width", "frame_height",
+    "index", "luma_excursion", "color_diff_excursion", "frame_rate_denom", "pixel_aspect_ratio_denom"])
